@@ -262,6 +262,10 @@ def run(rep, ctx):
     with rep.guard("R16.4"):
         cxxrules.bin_search_siblings(rep, "R16.4")
         r16_4(rep, M, "R16.4")
+    rep.rule("R16.5", "scaled/cartesian conversion used for the vacancy offsets follows the row-vector convention and wraps only periodic components (shared with C20)")
+    with rep.guard("R16.5"):
+        from . import shared as _sh
+        _sh.frames(rep, ctx.model, "R16.5")
     rep.floor("R16.1", 5)
     rep.floor("R16.2", 2)
     rep.floor("R16.3", 7)
